@@ -8,6 +8,8 @@
 //!   q<rid>:<cmds>          raw_command_list; <cmds> = commands joined by `+`, command = namehex[~arghex]*
 //!   a<rid>:<urihex>        Client::album_art
 //!   y<rid>:<v|t>:<names>   typed command_list of echo commands (Vec / tuple), names hex joined by `+`
+//!   k<rid>:<cmd>           Client::raw_command (ONE command, the single-frame entry point)
+//!   m<rid>:<namehex>       Client::command of one echo command (the typed single-command entry point)
 //!   b<rid>:<cmds>:<hex>    enqueue + make bytes readable before the task runs (both select! branches ready)
 //!   t<ms>                  advance the clock
 //!   c<rid>                 drop the caller's future
@@ -147,16 +149,18 @@ fn fmt_cmd_err(e: &CommandError) -> String {
     }
 }
 
+fn build_cmd(c: &str) -> RawCommand {
+    let mut parts = c.split('~');
+    let name = String::from_utf8(unhex(parts.next().unwrap())).unwrap();
+    let mut cmd = RawCommand::new(&name);
+    for a in parts {
+        cmd = cmd.argument(String::from_utf8(unhex(a)).unwrap());
+    }
+    cmd
+}
+
 fn build_list(spec: &str) -> RawList {
-    let mut cmds = spec.split('+').map(|c| {
-        let mut parts = c.split('~');
-        let name = String::from_utf8(unhex(parts.next().unwrap())).unwrap();
-        let mut cmd = RawCommand::new(&name);
-        for a in parts {
-            cmd = cmd.argument(String::from_utf8(unhex(a)).unwrap());
-        }
-        cmd
-    });
+    let mut cmds = spec.split('+').map(build_cmd);
     let mut l = RawList::new(cmds.next().unwrap());
     for c in cmds {
         l.add(c);
@@ -171,6 +175,26 @@ fn raw_caller(client: Client, spec: String) -> CallerFut {
         let l = build_list(&spec);
         match client.raw_command_list(l).await {
             Ok(fs) => format!("ok:{}", fs.iter().map(fmt_frame).collect::<Vec<_>>().join("/")),
+            Err(e) => fmt_cmd_err(&e),
+        }
+    })
+}
+
+/// `Client::raw_command`: one command, the reply as its single frame
+fn single_caller(client: Client, spec: String) -> CallerFut {
+    Box::pin(async move {
+        match client.raw_command(build_cmd(&spec)).await {
+            Ok(f) => format!("one:{}", fmt_frame(&f)),
+            Err(e) => fmt_cmd_err(&e),
+        }
+    })
+}
+
+/// `Client::command` with one harness-defined echo command
+fn typed1_caller(client: Client, name: String) -> CallerFut {
+    Box::pin(async move {
+        match client.command(Echo(name)).await {
+            Ok(item) => format!("typed:{}", hex(item.as_bytes())),
             Err(e) => fmt_cmd_err(&e),
         }
     })
@@ -259,7 +283,15 @@ impl World {
     pub fn new(password: Option<String>, seed: u64) -> World {
         let sh = Arc::new(Mutex::new(Shared { wcap: wcap_of(seed), ..Shared::default() }));
         let io = SimIo(sh.clone());
-        let conn: ConnFut = Box::pin(async move { Client::connect_with_password_opt(io, password.as_deref()).await });
+        // all three entry points: `connect`, `connect_with_password`, `connect_with_password_opt`
+        // (which one is part of the schedule: derived from its seed)
+        let conn: ConnFut = Box::pin(async move {
+            match (password, (seed / 8) % 2) {
+                (None, 0) => Client::connect(io).await.map_err(ConnectWithPasswordError::ProtocolError),
+                (Some(p), 0) => Client::connect_with_password(io, &p).await,
+                (p, _) => Client::connect_with_password_opt(io, p.as_deref()).await,
+            }
+        });
         World {
             sh,
             conn: Some(conn),
@@ -294,13 +326,15 @@ impl World {
             "s" | "Z" => {}
             // wall-clock time passes (the tokio clock is paused and does not move)
             "W" => std::thread::sleep(std::time::Duration::from_millis(rest.parse().unwrap())),
-            "q" | "b" | "a" | "y" => {
+            "q" | "b" | "a" | "y" | "k" | "m" => {
                 let f: Vec<&str> = rest.splitn(3, ':').collect();
                 let rid: usize = f[0].parse().unwrap();
                 if let Some(c) = &self.client {
                     let c = c.clone();
                     let mut fut = match kind {
                         "q" | "b" => raw_caller(c, f[1].to_string()),
+                        "k" => single_caller(c, f[1].to_string()),
+                        "m" => typed1_caller(c, String::from_utf8(unhex(f[1])).unwrap()),
                         "a" => art_caller(c, String::from_utf8(unhex(f[1])).unwrap()),
                         _ => {
                             let names: Vec<String> = if f.len() < 3 || f[2].is_empty() {
@@ -1147,13 +1181,14 @@ pub fn gen_schedule(r: &mut Rng, g: &GenCfg, steps: usize, prop: &str, backpress
                         let is_vec = r.chance(1, 2);
                         let n = if is_vec { r.below(10) } else { r.range(1, 8) };
                         let names: Vec<String> = (0..n).map(|i| format!("n{}_{}", rid, i)).collect();
-                        do_act(
-                            &mut w,
-                            &mut sv,
-                            &mut actions,
-                            format!("y{}:{}:{}", rid, if is_vec { "v" } else { "t" }, names.iter().map(|n| hex(n.as_bytes())).collect::<Vec<_>>().join("+")),
-                        )
-                        .await;
+                        // one command: every other time through `Client::command` instead of a list of one
+                        // (decided by the request id: no random choice is consumed)
+                        let a = if n == 1 && rid % 2 == 0 {
+                            format!("m{}:{}", rid, hex(names[0].as_bytes()))
+                        } else {
+                            format!("y{}:{}:{}", rid, if is_vec { "v" } else { "t" }, names.iter().map(|n| hex(n.as_bytes())).collect::<Vec<_>>().join("+"))
+                        };
+                        do_act(&mut w, &mut sv, &mut actions, a).await;
                     } else if r.chance(1, 3) && !sv.out.is_empty() {
                         // both select! branches ready: request + bytes in the same poll; half of the
                         // time the bytes complete the pending reply (a request is then queued at the
@@ -1163,7 +1198,11 @@ pub fn gen_schedule(r: &mut Rng, g: &GenCfg, steps: usize, prop: &str, backpress
                         do_act(&mut w, &mut sv, &mut actions, format!("b{}:{}:{}", rid, gen_request(r, false), hex(&v))).await;
                     } else {
                         let big = steps > 30 && r.chance(1, 10);
-                        do_act(&mut w, &mut sv, &mut actions, format!("q{}:{}", rid, gen_request(r, big))).await;
+                        let spec = gen_request(r, big);
+                        // a request of one command: every third time through `Client::raw_command`
+                        // (the single-frame entry point) instead of `raw_command_list`
+                        let kind = if !spec.contains('+') && rid % 3 == 0 { "k" } else { "q" };
+                        do_act(&mut w, &mut sv, &mut actions, format!("{}{}:{}", kind, rid, spec)).await;
                     }
                     live.push(rid);
                 }
